@@ -335,9 +335,9 @@ def run_C03(run):
 VAL_EXPR = consts(BASE_EXPR, UseCat=False, UseVal=True)
 
 
-def float_stage(run, fam):
+def float_stage(run, fam, least=1000):
     r, st = run.gen_and_replay("MC_Float", {"Family": fam}, name="float-" + fam, kind="f64")
-    if st["cases"] < 1000:
+    if st["cases"] < least:
         raise ToolingError("MC_Float %s produced only %d cases: vacuous" % (fam, st["cases"]))
 
 
@@ -366,6 +366,9 @@ def run_C08(run):
     # ceiling, number(), sum(), string() of a number as the shortest decimal that reads back; bit-for-bit
     for fam in ("arith1", "fn", "str") + (() if q else ("arith2",)):
         float_stage(run, fam)
+    # the edges of the binary64 range (309-digit literals, subnormals written with 324 fraction digits): overflow to
+    # infinity, gradual underflow, the largest double and its neighbours
+    float_stage(run, "extremeq" if q else "extreme", least=40)
 
 
 def run_C09(run):
